@@ -231,26 +231,50 @@ impl ExactSizeIterator for OsuGradualDifficulty {
 }
 
 mod osu_objects {
-    use std::pin::Pin;
+    use std::{pin::Pin, ptr::NonNull};
 
     use crate::osu::object::OsuObject;
 
-    /// Wrapper to ensure that the data will not be moved
+    /// Wrapper to ensure that the data will not be moved.
+    ///
+    /// The objects are owned through a raw pointer instead of a `Box`. A `Box`
+    /// asserts unique access to its content whenever it is moved which would
+    /// invalidate the references into the objects that the difficulty objects
+    /// hold as soon as the gradual calculator itself is moved.
     pub(super) struct OsuObjects {
-        objects: Box<[OsuObject]>,
+        objects: NonNull<[OsuObject]>,
     }
 
+    // SAFETY: `OsuObjects` owns its objects just like a `Box<[OsuObject]>`.
+    unsafe impl Send for OsuObjects {}
+    unsafe impl Sync for OsuObjects {}
+
     impl OsuObjects {
-        pub(super) const fn new(objects: Box<[OsuObject]>) -> Self {
+        pub(super) fn new(objects: Box<[OsuObject]>) -> Self {
+            // SAFETY: `Box::into_raw` never returns a null pointer
+            let objects = unsafe { NonNull::new_unchecked(Box::into_raw(objects)) };
+
             Self { objects }
         }
 
         pub(super) const fn is_empty(&self) -> bool {
-            self.objects.is_empty()
+            self.objects.len() == 0
         }
 
         pub(super) fn iter_mut(&mut self) -> impl ExactSizeIterator<Item = Pin<&mut OsuObject>> {
-            self.objects.iter_mut().map(Pin::new)
+            // SAFETY: The pointer stems from a `Box` that is only released on
+            // drop and `&mut self` guarantees exclusive access.
+            let objects = unsafe { self.objects.as_mut() };
+
+            objects.iter_mut().map(Pin::new)
+        }
+    }
+
+    impl Drop for OsuObjects {
+        fn drop(&mut self) {
+            // SAFETY: The pointer was created through `Box::into_raw` and is
+            // released only here.
+            drop(unsafe { Box::from_raw(self.objects.as_ptr()) });
         }
     }
 }
